@@ -32,6 +32,7 @@ def _tail_into_cases(fn: ast.FunctionDef) -> ast.FunctionDef:
     self-contained sequence of statements that runs for that sub-command."""
     import copy
     fn = copy.deepcopy(fn)
+    _split_or_cases(fn)
     _expand_conditional_statements(fn)
     for i, st in enumerate(fn.body):
         if isinstance(st, ast.Match):
@@ -47,6 +48,67 @@ def _tail_into_cases(fn: ast.FunctionDef) -> ast.FunctionDef:
                 del fn.body[i + 1:]  # unreachable now: every case (including the wildcard) leaves
             return fn
     return fn
+
+
+def _split_or_cases(fn: ast.FunctionDef) -> None:
+    """`case "set" | "rm" as cmd: … (A if cmd == "set" else B) …` is written out as one case per literal, with the captured
+    name replaced by the literal and the comparisons on it decided: each sub-command is then judged on its own statements."""
+    import copy
+
+    class Fold(ast.NodeTransformer):
+        def __init__(self, name, value):
+            self.name, self.value = name, value
+
+        def visit_Name(self, n):
+            if isinstance(n.ctx, ast.Load) and n.id == self.name:
+                return ast.copy_location(ast.Constant(value=self.value), n)
+            return n
+
+        @staticmethod
+        def _decide(test):
+            if isinstance(test, ast.Compare) and len(test.ops) == 1 and isinstance(test.left, ast.Constant) and isinstance(test.comparators[0], ast.Constant):
+                if isinstance(test.ops[0], ast.Eq):
+                    return test.left.value == test.comparators[0].value
+                if isinstance(test.ops[0], ast.NotEq):
+                    return test.left.value != test.comparators[0].value
+            return None
+
+        def visit_IfExp(self, n):
+            self.generic_visit(n)
+            d = self._decide(n.test)
+            return n if d is None else (n.body if d else n.orelse)
+
+        def visit_If(self, n):
+            self.generic_visit(n)
+            d = self._decide(n.test)
+            if d is None:
+                return n
+            return (n.body if d else n.orelse) or [ast.copy_location(ast.Pass(), n)]
+
+    for st in ast.walk(fn):
+        if not isinstance(st, ast.Match):
+            continue
+        new_cases = []
+        for c in st.cases:
+            pat, name = c.pattern, None
+            if isinstance(pat, ast.MatchAs) and pat.pattern is not None:
+                pat, name = pat.pattern, pat.name
+            lits = [p_.value.value for p_ in pat.patterns] if isinstance(pat, ast.MatchOr) and all(
+                isinstance(p_, ast.MatchValue) and isinstance(p_.value, ast.Constant) for p_ in pat.patterns) else None
+            if lits is None or c.guard is not None:
+                new_cases.append(c)
+                continue
+            for v in lits:
+                body = copy.deepcopy(c.body)
+                if name:
+                    folded = []
+                    for b in body:
+                        r_ = Fold(name, v).visit(b)
+                        folded.extend(r_ if isinstance(r_, list) else [r_])
+                    body = folded
+                new_cases.append(ast.match_case(pattern=ast.MatchValue(value=ast.Constant(value=v)), guard=None, body=body))
+        st.cases = new_cases
+    ast.fix_missing_locations(fn)
 
 
 def _expand_conditional_statements(fn: ast.FunctionDef) -> None:
